@@ -123,6 +123,19 @@ pub fn c01_failing_masks(p: &Parsed) -> Vec<u64> {
 
 pub fn run_c01(ctx: &mut Ctx, known: &Known) {
     run_implonly(ctx);
+    {
+        use crate::suites3::*;
+        let thin = if ctx.tier == "thorough" { 1 } else { 5 };
+        same_field_triples(ctx, "C01", thin);
+        cast_cast_or_chains(ctx, "C01");
+        and_blocks_over_arrays(ctx, "C01");
+        nested_all_with_sibling(ctx, "C01");
+        wide_numeric_matrix(ctx, "C01");
+        rows_field_twice(ctx, "C01");
+        null_members_missing_path(ctx, "C01");
+        big_identifiers_twice(ctx, "C01");
+        rows_with_untabulated_entry(ctx, "C01");
+    }
     // corpus first
     for (name, c) in corpus_cases() {
         let (ex, parsed) = run_rule_case(ctx, &c, false);
@@ -347,6 +360,8 @@ fn c03_deep_documents(ctx: &mut Ctx) {
 
 pub fn run_c03(ctx: &mut Ctx, _known: &Known) {
     run_implonly(ctx);
+    crate::suites3::big_identifiers_twice(ctx, "C03");
+    crate::suites3::rows_field_twice(ctx, "C03");
     c03_deep_documents(ctx);
     c03_multibyte(ctx);
     c03_lone_under_quantifiers(ctx);
